@@ -38,7 +38,7 @@ import (
 	"strings"
 )
 
-const extractorVersion = "c18-extract-13"
+const extractorVersion = "c18-extract-14"
 
 var excludedPkgs = map[string]string{
 	"draw":     "graphical output",
@@ -460,6 +460,37 @@ func liveCommands() []string {
 	return out
 }
 
+var repoOfRender string
+
+// files of cmd/ whose code mentions the identifier rootCpus (the value of -t)
+func cpuFiles(repo string) []string {
+	var out []string
+	ents, _ := os.ReadDir(filepath.Join(repo, "cmd"))
+	fset := token.NewFileSet()
+	for _, e := range ents {
+		n := e.Name()
+		if !strings.HasSuffix(n, ".go") || strings.HasSuffix(n, "_test.go") || n == "root.go" {
+			continue
+		}
+		f, err := parser.ParseFile(fset, filepath.Join(repo, "cmd", n), nil, 0)
+		if err != nil {
+			continue
+		}
+		found := false
+		ast.Inspect(f, func(x ast.Node) bool {
+			if id, ok := x.(*ast.Ident); ok && id.Name == "rootCpus" {
+				found = true
+			}
+			return !found
+		})
+		if found {
+			out = append(out, "cmd/"+n)
+		}
+	}
+	sort.Strings(out)
+	return out
+}
+
 func render(sites, sources []siteRec, typeErrs []string, hooks []string, depSites, depSources []siteRec, depNotes []string) string {
 	var b strings.Builder
 	b.WriteString("-- GENERATED by harness/c18/extract.go (vh gen-tables) from the working tree of the repository; do not edit.\n")
@@ -506,6 +537,14 @@ func render(sites, sources []siteRec, typeErrs []string, hooks []string, depSite
 		b.WriteString(leanStr(e))
 	}
 	b.WriteString("]\n\n")
+	b.WriteString("-- files of package cmd (other than root.go) that read the thread count `rootCpus`\ndef cpuFiles : List String := [")
+	for i, e := range cpuFiles(repoOfRender) {
+		if i > 0 {
+			b.WriteString(", ")
+		}
+		b.WriteString(leanStr(e))
+	}
+	b.WriteString("]\n\n")
 	b.WriteString("-- the dependency packages that were loaded and scanned\ndef depPackages : List String := [")
 	for i, e := range lastDepPkgs {
 		if i > 0 {
@@ -541,6 +580,7 @@ func GenTables(repo, out string) error {
 		if err != nil {
 			return err
 		}
+		repoOfRender = repo
 		ds, dso, dn := ExtractDeps(repo)
 		content = render(sites, sources, terrs, hooks, ds, dso, dn)
 		os.WriteFile(cache, []byte(content), 0644)
@@ -652,7 +692,7 @@ func scanDecl(fset *token.FileSet, info *types.Info, d ast.Decl, fname, fscope s
 				}
 			}
 		case *ast.GoStmt:
-			sources = append(sources, mk("goroutine", x, "go", "go")) // the bodies belong to C11: only the existence of the goroutine is recorded
+			sources = append(sources, mk("goroutine", x, hash12(normSrc(fset, x)), "go")) // body fingerprinted (VerifYield() calls dropped): an edited goroutine re-opens its review
 		case *ast.BasicLit:
 			if x.Kind == token.STRING && strings.Contains(x.Value, "%p") {
 				st := enclosingStmt()
